@@ -111,7 +111,9 @@ def execStep (st : ExecDrvSt) (op : String) (a : KV) : ExecDrvSt × String :=
     let stt : Stat := if (viaLink && a.str "variant" "bad" == "bad") || bare then { uid := 1000, gid := 1000, mode := 0o777 }
                           else { uid := 0, gid := 0, mode := 0o755 }
     -- variant=blank: a root-owned script without an interpreter line (the start fails: exec format error), nothing runs
-    let beh : Beh := if a.str "variant" "" == "blank" then .startError else .exits 0 "7\n"
+    -- variant=relpath: a bare name found through a RELATIVE $PATH entry: os/exec refuses to start it (ErrDot): an error,
+    -- nothing runs (the file in the working directory passed the check, but it is not what os/exec would start)
+    let beh : Beh := if a.str "variant" "" == "blank" || a.str "variant" "" == "relpath" then .startError else .exits 0 "7\n"
     let o := safeCmdExecution .resolved (.ok stt) beh 2000
     (exCount st o.ran, s!"run={exFmtRun o.res} good={exB01 o.ran} bad=0")
   | "ex.busy" =>
